@@ -110,6 +110,17 @@ theorem length_ainsert (s : List (κ × α)) (k : κ) (v : α) :
 
 end assoc
 
+/-- induction from the end of a list (histories grow at the end) -/
+theorem list_reverse_induction {α : Type} {motive : List α → Prop} (nil : motive [])
+    (snoc : ∀ l a, motive l → motive (l ++ [a])) : ∀ l, motive l := by
+  intro l
+  have h : ∀ r : List α, motive r.reverse := by
+    intro r
+    induction r with
+    | nil => exact nil
+    | cons a r ih => simpa using snoc _ a ih
+  simpa using h l.reverse
+
 /-! ### stores -/
 
 theorem lookup_insert (s : Store) (i j : Nat) (v : Val) :
@@ -206,7 +217,8 @@ theorem getElem?_wshift_some (a : Val) (w : Window) (m j : Nat) :
   simp only [wshift]
   by_cases hjm : j < m
   · by_cases hlen : j < (a :: a :: w).length
-    · rw [List.getElem?_append_left (by simp [List.length_take]; omega)]
+    · have hlen' : j < w.length + 1 + 1 := by simpa using hlen
+      rw [List.getElem?_append_left (by simp only [List.length_take, List.length_cons]; omega)]
       rw [List.getElem?_take_of_lt hjm]
       cases j with
       | zero => simp
@@ -291,7 +303,8 @@ theorem shiftLoop_lookup (top : Nat) (s : Store) (hall : ∀ j, j < top → (loo
   induction top generalizing s with
   | zero =>
     have : ¬ (1 ≤ j ∧ j ≤ 0) := by omega
-    simp [shiftLoop, this]
+    rw [if_neg this]
+    rfl
   | succ i ih =>
     unfold shiftLoop
     cases hl : lookup s i with
@@ -338,7 +351,7 @@ theorem shiftStart_neg (n : Nat) (m : Int) (h : m < 0) : shiftStart n (some m) =
 
 theorem shiftStart_nat (n m : Nat) :
     shiftStart n (some (m : Int)) = some (if n < m then n else m - 1) := by
-  unfold shiftStart
+  simp only [shiftStart]
   have h0 : ¬ ((m : Int) < 0) := by omega
   rw [if_neg h0]
   by_cases h : n < m
@@ -348,5 +361,142 @@ theorem shiftStart_nat (n m : Nat) :
     rw [if_neg this, if_neg h]
     congr 1
     omega
+
+/-! ### refinement helpers -/
+
+theorem repr_shiftLoop {s : Store} {w : Window} (h : Repr s w) (top : Nat) (ht : top ≤ w.length) :
+    (shiftLoop top s).2 = true ∧
+      ∀ j, lookup (shiftLoop top s).1 j = if 1 ≤ j ∧ j ≤ top then w[j - 1]? else w[j]? := by
+  have hall : ∀ j, j < top → (lookup s j).isSome = true := by
+    intro j hj
+    rw [h.2 j]
+    have : j < w.length := by omega
+    simp [this]
+  refine ⟨(shiftLoop_ok_iff top s).mpr hall, fun j => ?_⟩
+  rw [shiftLoop_lookup top s hall j, h.2, h.2]
+
+theorem wexec_append (w : Window) (a b : List Op) : wexec w (a ++ b) = wexec (wexec w a) b := by
+  induction a generalizing w with
+  | nil => rfl
+  | cons op a ih => simp only [List.cons_append, wexec, ih]
+
+theorem regular_append (w : Window) (a b : List Op) :
+    regular w (a ++ b) = (regular w a && regular (wexec w a) b) := by
+  induction a generalizing w with
+  | nil => simp [regular, wexec]
+  | cons op a ih => simp only [List.cons_append, regular, wexec, ih, Bool.and_assoc]
+
+theorem alternation_append (h : List (Nat × Val)) (p : Nat × Val) :
+    alternation (h ++ [p]) = alternation h ++ [.shift (some (p.1 : Int)), .set 0 p.2] := by
+  simp [alternation, List.flatMap_append]
+
+theorem wexec_round (w : Window) (m : Nat) (v : Val) :
+    wexec w [.shift (some (m : Int)), .set 0 v] = wset (wshift w (some m)) 0 v := by
+  have : ¬ ((m : Int) < 0) := by omega
+  simp [wexec, wstep, this]
+
+theorem regular_alternation (hist : List (Nat × Val)) : regular [] (alternation hist) = true := by
+  induction hist using list_reverse_induction with
+  | nil => rfl
+  | snoc h p ih =>
+    rw [alternation_append, regular_append, ih]
+    have : ¬ ((p.1 : Int) < 0) := by omega
+    simp [regular, wstep, this]
+
+theorem window_alternation (hist : List (Nat × Val)) (i : Nat) (hi : i < hist.length)
+    (ht : Travels hist.reverse i) :
+    (wexec [] (alternation hist))[i]? = (hist.reverse[i]?).map (·.2) := by
+  induction hist using list_reverse_induction generalizing i with
+  | nil => simp at hi
+  | snoc h p ih =>
+    rw [alternation_append, wexec_append, wexec_round]
+    rw [getElem?_wset _ 0 i p.2 (Nat.zero_le _)]
+    simp only [List.reverse_append, List.reverse_cons, List.reverse_nil, List.nil_append,
+      List.singleton_append] at ht ⊢
+    cases i with
+    | zero => simp
+    | succ i =>
+      have hi' : i < h.length := by simpa using hi
+      have ht' : Travels h.reverse i := by
+        intro j hj
+        obtain ⟨q, hq, hlt⟩ := ht (j + 1) (by omega)
+        refine ⟨q, by simpa using hq, by omega⟩
+      have hdepth : i + 1 < p.1 := by
+        obtain ⟨q, hq, hlt⟩ := ht 0 (by omega)
+        simp only [List.getElem?_cons_zero, Option.some.injEq] at hq
+        subst hq
+        omega
+      have ihi := ih i hi' ht'
+      have hsome : ∃ x, (wexec [] (alternation h))[i]? = some x := by
+        rw [ihi]
+        have : i < h.reverse.length := by simpa using hi'
+        rw [List.getElem?_eq_getElem this]
+        exact ⟨_, rfl⟩
+      have hne : Nat.succ i ≠ 0 := Nat.succ_ne_zero i
+      rw [if_neg hne]
+      cases hW : wexec [] (alternation h) with
+      | nil => rw [hW] at hsome; simp at hsome
+      | cons a W =>
+        rw [getElem?_wshift_some, if_neg hne, if_pos hdepth]
+        simp only [Nat.succ_sub_one, List.getElem?_cons_succ]
+        rw [← hW, ihi]
+
+theorem alternationAdd_append (m : Nat) (ds : List Val) (d : Val) :
+    alternationAdd m (ds ++ [d]) = alternationAdd m ds ++ [.shift (some (m : Int)), .add 0 d] := by
+  simp [alternationAdd, List.flatMap_append]
+
+theorem exec_append (s : Store) (a b : List Op) : exec s (a ++ b) = exec (exec s a) b := by
+  induction a generalizing s with
+  | nil => rfl
+  | cons op a ih => simp only [List.cons_append, exec, ih]
+
+theorem regular_alternationAdd (w : Window) (m : Nat) (ds : List Val) :
+    regular w (alternationAdd m ds) = true := by
+  induction ds using list_reverse_induction with
+  | nil => rfl
+  | snoc ds d ih =>
+    rw [alternationAdd_append, regular_append, ih]
+    have : ¬ ((m : Int) < 0) := by omega
+    simp [regular]
+
+theorem window_additive_aux (m : Nat) (hm : 0 < m) (v0 : Val) (ds : List Val) (i : Nat) (him : i < m)
+    (hik : i ≤ ds.length) :
+    (wexec [v0] (alternationAdd m ds))[i]? = some ((ds.take (ds.length - i)).foldl vadd v0) := by
+  induction ds using list_reverse_induction generalizing i with
+  | nil =>
+    have : i = 0 := by simpa using hik
+    subst this
+    simp [alternationAdd, wexec]
+  | snoc ds d ih =>
+    rw [alternationAdd_append, wexec_append]
+    have h0 := ih 0 hm (Nat.zero_le _)
+    simp only [Nat.sub_zero, List.take_length] at h0
+    cases hW : wexec [v0] (alternationAdd m ds) with
+    | nil => rw [hW] at h0; simp at h0
+    | cons a W =>
+      rw [hW] at h0
+      simp only [List.getElem?_cons_zero, Option.some.injEq] at h0
+      have hneg : ¬ ((m : Int) < 0) := by omega
+      have hstep : wexec (a :: W) [.shift (some (m : Int)), .add 0 d]
+          = wset (wshift (a :: W) (some m)) 0 (vadd a d) := by
+        have hhead : (wshift (a :: W) (some m))[0]? = some a := by
+          rw [getElem?_wshift_some]; simp
+        simp only [wexec, wstep, if_neg hneg, Int.toNat_natCast, wadd_eq, hhead, Option.map_some]
+      rw [hstep, getElem?_wset _ 0 i _ (Nat.zero_le _)]
+      cases i with
+      | zero =>
+        simp only [if_true, Nat.sub_zero, List.length_append, List.length_singleton]
+        rw [List.take_of_length_le (by simp), List.foldl_append, h0]
+        rfl
+      | succ i =>
+        have hne : Nat.succ i ≠ 0 := Nat.succ_ne_zero i
+        have hik' : i ≤ ds.length := by simpa using hik
+        rw [if_neg hne, getElem?_wshift_some, if_neg hne, if_pos him]
+        simp only [Nat.succ_sub_one]
+        rw [← hW, ih i (by omega) hik']
+        congr 2
+        simp only [List.length_append, List.length_singleton]
+        have : ds.length + 1 - (i + 1) = ds.length - i := by omega
+        rw [this, List.take_append_of_le_length (by omega)]
 
 end PorepyVerif.C08
